@@ -148,7 +148,15 @@ class VirtualLoopRun(LoopRun):
         loop.set_exception_handler(self._handler)
         try:
             asyncio.set_event_loop(loop)
-            return loop.run_until_complete(coro_fn())
+            main = loop.create_task(coro_fn())
+            # with a virtual clock this fires as soon as nothing else is left to run: a deadlock instead of a hang
+            guard = loop.call_later(1.0e7, main.cancel)
+            try:
+                return loop.run_until_complete(main)
+            except asyncio.CancelledError:
+                raise RuntimeError('deadlock: the case was still waiting when no timer or callback was left') from None
+            finally:
+                guard.cancel()
         finally:
             try:
                 pending = [t for t in asyncio.all_tasks(loop) if not t.done()]
